@@ -398,7 +398,7 @@ func runDBProfile(o Opts, p *dbProfile, post func(rec *Record, in DBInput, obs [
 	}
 	var selfSrc []Record
 	for i := 0; i < n; i++ {
-		if hungHistories >= 8 {
+		if hungHistories >= 5 {
 			break // every further history would cost its time-outs and say the same
 		}
 		r := NewRand(o.Seed, uint64(1000+i))
